@@ -265,7 +265,24 @@ FQN[split='/']: /\w+(\/\w+)*/;
     except TextXError: return True
 def F44():  # C02 an unordered group around one assignment drops the value
     return metamodel_from_str("Model: (x=INT)#;").model_from_str("3").x != 3
-ALL = [F44, F43, F42, F41, F40, F39, F38, F37, F36, F28, F1, F2, F3, F4, F5, F6, F7, F8, F9, F10, F11, F12, F13, F14, F15_16, F18, F19, F20, F21, F22, F23, F24, F26, F27]
+def F45():  # C15 (observed, open, no clause yet) a user-class constructor raising in an imported model leaves the parked attributes of that model's other user objects
+    import os, tempfile
+    from textx.scoping.providers import FQNImportURI
+    class Model:
+        def __init__(self, **kw):
+            for k, v in kw.items(): setattr(self, k, v)
+    class Item:
+        def __init__(self, parent=None, name=None):
+            if name == "boom": raise ValueError("constructor rejects boom")
+            self.parent = parent; self.name = name
+    g = "Model: imports*=Import items*=Item; Import: 'import' importURI=STRING; Item: 'item' name=ID;"
+    d = tempfile.mkdtemp()
+    open(os.path.join(d, "b.m"), "w").write("item boom\n"); open(os.path.join(d, "a.m"), "w").write('import "b.m"\nitem a1\n')
+    mm = metamodel_from_str(g, classes=[Model, Item]); mm.register_scope_providers({"*.*": FQNImportURI()})
+    try: mm.model_from_file(os.path.join(d, "a.m")); return False
+    except ValueError: pass
+    return len(Model._tx_obj_attrs) > 0
+ALL = [F45, F44, F43, F42, F41, F40, F39, F38, F37, F36, F28, F1, F2, F3, F4, F5, F6, F7, F8, F9, F10, F11, F12, F13, F14, F15_16, F18, F19, F20, F21, F22, F23, F24, F26, F27]
 if __name__ == "__main__":
     sel = sys.argv[1:]
     for w in ALL:
